@@ -72,9 +72,21 @@ pub fn run(c: &Value) -> Value {
     use rand::SeedableRng;
     ch.rng = rand::rngs::SmallRng::seed_from_u64(u64f(c, "seed") ^ 0xABCDEF);
     let mut states = vec![];
+    let mut decisions = vec![];
     for _ in 0..k {
+        // the values the step is about to use, from clones of the proposal (with its generator) and of the chain's generator
+        let mut pc = ch.proposal.clone();
+        let cand = pc.sample(&ch.current_state);
+        let lp_x = ch.target.unnorm_logp(&ch.current_state);
+        let lp_y = ch.target.unnorm_logp(&cand);
+        let lq_f = ch.proposal.logp(&ch.current_state, &cand);
+        let lq_b = ch.proposal.logp(&cand, &ch.current_state);
+        let mut rc = ch.rng.clone();
+        let u: f64 = rand::Rng::random(&mut rc);
+        decisions.push(json!({"cand": cand.iter().map(|x| x.to_bits()).collect::<Vec<u64>>(),
+            "lp_x": lp_x.to_bits(), "lp_y": lp_y.to_bits(), "lq_f": lq_f.to_bits(), "lq_b": lq_b.to_bits(), "lnu": u.ln().to_bits()}));
         let s = ch.step();
         states.push(s.iter().map(|x| x.to_bits()).collect::<Vec<u64>>());
     }
-    json!({"states": states})
+    json!({"states": states, "decisions": decisions})
 }
